@@ -18,10 +18,10 @@ import (
 
 // Common is embedded in every scenario: the part the runner and the minimiser understand.
 type Common struct {
-	Class     string `json:"class"`                // scenario class (driver, state, fault kind): part of a violation's signature
-	SchedMode string `json:"sched_mode"`           // fifo | random | sticky | prio | replay
-	SchedSeed uint64 `json:"sched_seed"`           //
-	Choices   []int  `json:"choices,omitempty"`    // recorded scheduling choices (replay mode)
+	Class     string `json:"class"`                  // scenario class (driver, state, fault kind): part of a violation's signature
+	SchedMode string `json:"sched_mode"`             // fifo | random | sticky | prio | replay
+	SchedSeed uint64 `json:"sched_seed"`             //
+	Choices   []int  `json:"choices,omitempty"`      // recorded scheduling choices (replay mode)
 	Uncontrol bool   `json:"uncontrolled,omitempty"` // mode R: hooks are not installed (race leg)
 }
 
@@ -144,9 +144,31 @@ func PanicSite(stack string) string {
 	return ""
 }
 
+// Leg is one execution mode of a check (see DESIGN.md section 4).
+type Leg struct {
+	Name      string  `json:"name"` // D controlled | R race | OS real kernel
+	Race      bool    `json:"race"`
+	QuickRuns int     `json:"quick_runs"`
+	Share     float64 `json:"share"`
+	Procs     int     `json:"procs"`
+	Workers   int     `json:"workers"`
+}
+
+// Meta is what the runner needs to know about a property's check.
+type Meta struct {
+	Level       string            `json:"level"`
+	Rule        string            `json:"rule"`
+	Components  map[string]string `json:"components"`
+	Assumptions []string          `json:"assumptions"`
+	QuickRuns   int               `json:"quick_runs"`
+	ThoroughS   int               `json:"thorough_s"`
+	Legs        []Leg             `json:"legs,omitempty"`
+}
+
 // Prop is one property's machinery.
 type Prop struct {
-	ID string
+	ID   string
+	Meta Meta
 	// Gen derives the scenario of run `run` of the batch `seed` (pure function of its arguments).
 	Gen func(seed uint64, run int, tier string) Scenario
 	// New returns an empty scenario to unmarshal a replay file into.
